@@ -101,6 +101,15 @@ class StopRequests(Observer, _FalseFailureWatch):
         if identifier not in shown['identifiers']:
             self.violate('stop-where-not-running', dict(detail, identifiers=shown['identifiers']),
                          'stop-where-not-running')
+        # S has just declared a LIVE peer lost (network slower than inactivity_ticks allows, no injected cut): what runs
+        # there left its view as FATAL and came back with the next hand-shake; its plan was built on the other view
+        if not sim.cuts and any(o == s.nick and sim.now_us - t < 90 * US for t, o, _p in self.false_failures):
+            self._probe('order_after_false_failure_skipped')
+            rec = {'s': s.nick, 'inc': s.incarnation, 'ns': ns, 'app': app_name, 'target': identifier,
+                   't_us': sim.now_us, 'seq': seq}
+            self.requests.append(rec)
+            self.handler_reqs.setdefault((s.nick, s.incarnation), []).append(rec)
+            return
         # higher stop_sequence of the same application: not running / stopping any more (view of S and truth)
         for q in app.processes.values():
             if q is proc or proc_stop_seq(sim.config, q.namespec) <= seq:
@@ -289,6 +298,11 @@ class StopRequests(Observer, _FalseFailureWatch):
                         continue
                     if not asked and ident in self._truly(q.namespec, RUNNING_STATES) \
                             and self._born(q.namespec, ident) < plan_t0:
+                        if not self._known_at(inst, q.namespec, ident, self._born(q.namespec, ident), plan_t0):
+                            # spawned before the plan but its first event had not reached the requester yet (start asked by
+                            # another instance a moment earlier): unknown to the plan
+                            self._probe('copy_unknown_at_plan_time')
+                            continue
                         self._probe('same_level_checked')
                         self.violate('same-sequence-not-together',
                                      {'requester': inst.nick, 'process': q.namespec, 'on': ident,
@@ -342,6 +356,9 @@ class StopRequests(Observer, _FalseFailureWatch):
     def _check_master_final(self, sim, m):
         """ The Master leaves the ending state: everything it could stop is stopped (or given up on time-out). """
         self._probe('master_final')
+        if not sim.cuts and any(o == m.nick and sim.now_us - t < 150 * US for t, o, _p in self.false_failures):
+            self._probe('master_final_after_false_failure_skipped')
+            return
         ctx = m.supvisors.context
         seen_running = {i for i, st in ctx.instances.items() if st.state.name == 'RUNNING'}
         left = []
@@ -411,6 +428,14 @@ class StopRequests(Observer, _FalseFailureWatch):
                     state = inst.rpcif.get_supvisors_state()['fsm_statename']
                 dropped = self.dropped_state.get(inst.identifier)
                 sig = 'instance-not-ended:%s' % state
+                # recorded finding: the order was accepted by a non-Master (state checked there) and its relay was
+                # refused by the Master, which had meanwhile left the states in which it serves it (back to ELECTION on a
+                # join): the acceptor only logs the fault, the user was answered True and nothing ends
+                refused = [r for r in sim.wire if r['src'] == self.ending['inst'] and r['method'] == self.ending['method']
+                           and r['via'] == 'proxy' and r.get('outcome') == 'fault' and r.get('fault') == 101
+                           and r['t_us'] >= self.ending['t_us']]
+                if refused and not any(o['method'] == method for o in self.orders):
+                    sig = 'instance-not-ended:relayed-order-refused-by-master-that-left-its-state'
                 if dropped and count.get((nick, inc), 0) == 0:
                     # recorded finding: the Master ended so fast that its proxies were stopped with the ending STATE
                     # publications to this instance still queued
